@@ -129,7 +129,7 @@ pub fn run(ctx: &Ctx) -> i32 {
         level: "exploration",
         rule: "cases are go commands made of the four pairs wtime/btime/winc/binc in one of the 24 token orders (optionally followed by 'movestogo N'), with either side to move; the mover's (time, increment) range over hostile values (0, 1, around the 5 s reserve, hours) and for each the opponent's values and the order vary; the budget recorded by the hook must be identical across opponent values and orders, <= the mover's remaining time, and < it whenever any time remains. The grid is run on fresh engines at the start position (either side to move) and, reduced, on other engine states: positions with few and with many legal moves (up to 218) and engine instances that have already run 1..40 real timed searches. Distinct by (engine state, command text); all non-trivial. End-to-end part: the real release binary is given extreme clocks (0..900 ms left, increments up to 10 s) in middlegames and the CPU time it consumes before answering must stay within the remaining time + 500 ms",
         assumptions: vec!["the budget observed is the Duration handed to find_best_move (hook in handle_go_command); that the search honours it is property C07".into()],
-        required: if ctx.replay.is_some() { vec![] } else { vec!["invariance_comparisons", "clock_zero", "clock_at_or_below_reserve", "clock_above_reserve", "increment_exceeds_remaining", "blackbox_go_with_extreme_clocks", "engine_states_other_than_a_fresh_start_position", "engine_states_after_12_or_more_timed_searches", "engine_states_with_more_than_30_legal_moves"] },
+        required: if ctx.replay.is_some() { vec![] } else { vec!["invariance_comparisons", "clock_zero", "clock_at_or_below_reserve", "clock_above_reserve", "increment_exceeds_remaining", "blackbox_go_with_extreme_clocks", "engine_states_other_than_a_fresh_start_position", "engine_states_after_12_or_more_timed_searches", "engine_states_with_more_than_30_legal_moves", "blackbox_go_with_seconds_on_the_clock_and_a_huge_increment"] },
         exhaustive: false,
         extra: vec![],
     };
@@ -296,8 +296,15 @@ fn c12_blackbox(ctx: &Ctx) -> Stats {
                 continue;
             }
             let black = p.stm == crate::oracle::BLACK;
-            let remaining = *rng.pick(&[0u64, 1, 40, 100, 300, 900]);
-            let inc = *rng.pick(&[0u64, 500, 2000, 10_000]);
+            // mostly tiny clocks; one case per worker with seconds on the clock and a huge increment
+            // (the budget is then almost the whole clock: an engine that treats it as a soft target
+            // and keeps searching for a fraction more overruns by more than the slack)
+            let big = k == 1;
+            let remaining = if big { *rng.pick(&[2500u64, 4000]) } else { *rng.pick(&[0u64, 1, 40, 100, 300, 900]) };
+            let inc = if big { 20_000 } else { *rng.pick(&[0u64, 500, 2000, 10_000]) };
+            if big {
+                st.bump("blackbox_go_with_seconds_on_the_clock_and_a_huge_increment");
+            }
             let opp = *rng.pick(&[0u64, 1000, 60_000, 600_000]);
             let opp_inc = *rng.pick(&[0u64, 5000]);
             let (wt, wi, bt, bi) = if black { (opp, opp_inc, remaining, inc) } else { (remaining, inc, opp, opp_inc) };
